@@ -4,6 +4,7 @@ import (
 	"fmt"
 	"sort"
 	"strings"
+	"runtime/debug"
 	"sync"
 
 	"github.com/bilibili/gengine/builder"
@@ -104,6 +105,7 @@ type Call struct {
 	Err      error
 	Panicked bool
 	PanicVal string
+	PanicSite string
 	Result   map[string]interface{}
 	ResultAtReturn map[string]interface{} // deep copy taken when the call returned
 	Req      *Req
@@ -251,6 +253,7 @@ func InvokeEngine(sc *Scenario, g *engine.Gengine, rb *builder.RuleBuilder, c *C
 		defer func() {
 			if e := recover(); e != nil {
 				panicked, pv = true, fmt.Sprint(e)
+				c.PanicSite = crashSite(string(debug.Stack()))
 			}
 		}()
 		switch c.Method {
@@ -325,6 +328,7 @@ func InvokePool(sc *Scenario, p *engine.GenginePool, c *Call) {
 		defer func() {
 			if e := recover(); e != nil {
 				panicked, pv = true, fmt.Sprint(e)
+				c.PanicSite = crashSite(string(debug.Stack()))
 			}
 		}()
 		switch c.Method {
